@@ -113,6 +113,7 @@ func newModel(thorough bool) *chainprop.Model {
 	m.StdDrive()
 	m.Acts = append(m.Acts, m.Drive("invite V1->NEW"), m.Drive("killInvitee G->NEW"))
 	m.Singles(false)
+	m.TipsSingles() // every template once more with tips (tips are paid on top of amount and fee)
 	m.H.Inserted = func(t *chainprop.Trans) bool {
 		c := t.C
 		if len(t.Block.Body.Transactions) != 1 {
